@@ -230,14 +230,19 @@ static inline int bytes_all(const uint8_t *p, size_t n, uint8_t b) {
     return 1;
 }
 
+/* core_eval's destination buffer: PB (offsets 0..15) by default, the 256-byte PBW in the placement section */
+static uint8_t PBW[256] __attribute__((aligned(64)));
+static uint8_t *ce_buf = PB;
+static size_t ce_size = sizeof PB;
+
 static int core_eval(int fam, uint64_t v, int off) {
     char api[64];
     uint8_t first[16];
     int len0 = 0;
     for (int bgi = 0; bgi < 2; bgi++) {
         uint8_t bg = bgi ? 0x5a : 0xa5;
-        memset(PB, bg, sizeof PB);
-        uint8_t *dst = PB + 16 + off;
+        memset(ce_buf, bg, ce_size);
+        uint8_t *dst = ce_buf + 16 + off;
         cur_api = "put";
         int len = fam_put(fam, dst, v);
         if (len < FMINLEN[fam] || len > FMAXLEN[fam]) {
@@ -245,9 +250,9 @@ static int core_eval(int fam, uint64_t v, int off) {
             FAILV(api, "length_out_of_range", "v=%" PRIu64 " len=%d", v, len);
             return len;
         }
-        if (!bytes_all(PB, (size_t)(16 + off), bg) || !bytes_all(dst + len, sizeof PB - (size_t)(16 + off + len), bg)) {
+        if (!bytes_all(ce_buf, (size_t)(16 + off), bg) || !bytes_all(dst + len, ce_size - (size_t)(16 + off + len), bg)) {
             snprintf(api, sizeof api, "%s.put", FNAME[fam]);
-            FAILV(api, "stray_write", "v=%" PRIu64 " len=%d off=%d bg=%02x buf=%s", v, len, off, bg, vh_hex(PB, sizeof PB));
+            FAILV(api, "stray_write", "v=%" PRIu64 " len=%d off=%d bg=%02x buf=%s", v, len, off, bg, vh_hex(ce_buf, ce_size));
         }
         if (bgi == 0) {
             memcpy(first, dst, (size_t)len);
@@ -952,6 +957,55 @@ static void run_c01_c04(void) {
             char fl[64];
             snprintf(fl, sizeof fl, "alphabet_%s", FNAME[fam]);
             vh_flag(fl, complete);
+        }
+        /* 3. placement: the bytes written for a value do not depend on WHERE they are written - every start offset
+         * 16..143 of a 64-byte-aligned buffer (all residues modulo 4, 8, 16 and 64, so every way an encoding and each
+         * of its words can straddle such a boundary), neighbours intact; per byte-length class the smallest and the
+         * largest value and one whose bytes are all different */
+        snprintf(sec, sizeof sec, "placements/%s", FNAME[fam]);
+        if (vh_section_begin(sec)) {
+            uint64_t PV[40];
+            size_t npv = 0;
+            PV[npv++] = 0;
+            for (int b = 1; b <= 8; b++) {
+                uint64_t hi = b == 8 ? ~0ULL : ((1ULL << (8 * b)) - 1);
+                PV[npv++] = hi;
+                PV[npv++] = (hi >> 8) + 1;
+                PV[npv++] = 0x0102030405060708ULL >> (8 * (8 - b));
+                PV[npv++] = 0xF1E2D3C4B5A69788ULL >> (8 * (8 - b));
+            }
+            PV[npv++] = 240;
+            PV[npv++] = 2288;
+            PV[npv++] = 67824;
+            PV[npv++] = 5000000000ULL;
+            ce_buf = PBW;
+            ce_size = sizeof PBW;
+            for (int off = 0; off < 128; off++) {
+                if (!vh_case()) {
+                    continue;
+                }
+                if (SB_ENTER()) {
+                    for (size_t i = 0; i < npv; i++) {
+                        if (fam == F_SPLITNZ && PV[i] == 0) {
+                            continue;
+                        }
+                        cur_v = PV[i];
+                        core_eval(fam, PV[i], off);
+                    }
+                    SB_LEAVE();
+                } else {
+                    char api[64];
+                    snprintf(api, sizeof api, "%s.%s", FNAME[fam], cur_api);
+                    vh_fail(api, vh_fault_name(), "untagged", "v=%" PRIu64 " placement offset %d %s", (uint64_t)cur_v, off, vh_fault_msg);
+                }
+                vh_count("cases", npv);
+                vh_count("calls", npv * 8);
+            }
+            ce_buf = PB;
+            ce_size = sizeof PB;
+            char ck[64];
+            snprintf(ck, sizeof ck, "%s/placements", FNAME[fam]);
+            vh_class(ck, "%zu values x 128 start offsets", npv);
         }
     }
     if (P_C01) {
